@@ -645,7 +645,7 @@ func (e *Engine) checkC04(ops []*opRec) {
 	}
 }
 
-func (e *Engine) abortFree() bool { return e.sim.Panic == nil && e.abort == "" }
+func (e *Engine) abortFree() bool { return !e.sim.Panicked() && e.abort == "" }
 
 func (e *Engine) checkC05(ops []*opRec) {
 	var dels, waits []*opRec
